@@ -209,14 +209,15 @@ type Explorer struct {
 	MaxDepth int
 	MaxSteps int
 	// results
-	Steps     int
-	Paths     int
-	Imprecise string // non-empty when a cap was hit
-	AutoTrack bool
-	NoHist    bool // do not record branch history (rules that only need current facts, in loops)
-	memo      map[string][]exitRec
-	condCount map[string]map[string]int
-	infos     map[string]*fnInfo
+	Steps      int
+	Paths      int
+	Imprecise  string // non-empty when a cap was hit
+	AutoTrack  bool
+	NoHist     bool // do not record branch history (rules that only need current facts, in loops)
+	NoForkBool bool // do not materialise non-constant boolean results of inlined callees
+	memo       map[string][]exitRec
+	condCount  map[string]map[string]int
+	infos      map[string]*fnInfo
 }
 
 type exitRec struct {
@@ -887,6 +888,56 @@ func (e *Explorer) call(fr *Frame, s *State, site ssa.CallInstruction, deferred 
 					delete(ns.Env, v)
 				}
 			}
+			if val, ok := site.(ssa.Value); ok && !deferred && len(r.rets) == 1 && !e.NoForkBool && isBoolValue(val) && r.rets[0].S != "true" && r.rets[0].S != "false" {
+				// A boolean result that is not a constant on this callee path
+				// ("return a != 1", "return helper(x)"): materialise both
+				// outcomes here, with the deciding atom as a fact, so that the
+				// caller (and InlineReturn) sees a constant exactly as if the
+				// callee had written "if cond { return true }; return false".
+				a := boolAtom(r.rets[0])
+				tF, fF := !ns.Facts.Contradicts(a), !ns.Facts.Contradicts(a.Neg())
+				if !tF && !fF {
+					tF, fF = true, true
+				}
+				for _, tv := range []bool{true, false} {
+					if (tv && !tF) || (!tv && !fF) {
+						continue
+					}
+					at, cs := a, "true"
+					if !tv {
+						at, cs = a.Neg(), "false"
+					}
+					ns2 := ns.clone()
+					cx := &X{E: e, Fr: fr, St: ns2, Ins: site}
+					if track, sticky := e.tracked(cx, at); track {
+						at.Sticky = sticky
+						at.Frame = fr.ID
+						ns2.Facts.Add(at)
+						if sticky && !e.NoHist {
+							ns2.Hist[Plain(at.String())] = true
+						}
+					}
+					if len(ns2.Trace) < 400 {
+						ns2.Trace = append(ns2.Trace, at.String())
+					}
+					if e.H.Branch != nil {
+						e.H.Branch(cx, at)
+						if cx.killed {
+							continue
+						}
+					}
+					ns2.Env[val] = Expr{S: cs}
+					if e.H.InlineReturn != nil {
+						xx := &X{E: e, Fr: nf, St: ns2, Ins: site}
+						e.H.InlineReturn(xx, callee, []Expr{{S: cs}})
+						if xx.killed {
+							continue
+						}
+					}
+					out = append(out, ns2)
+				}
+				continue
+			}
 			if val, ok := site.(ssa.Value); ok && !deferred {
 				if len(r.rets) == 1 {
 					ns.Env[val] = r.rets[0]
@@ -909,6 +960,11 @@ func (e *Explorer) call(fr *Frame, s *State, site ssa.CallInstruction, deferred 
 
 // siteName names a call instruction within its function (Defer and Go are
 // not values, so they are named by block and index).
+func isBoolValue(v ssa.Value) bool {
+	b, ok := v.Type().Underlying().(*types.Basic)
+	return ok && b.Kind() == types.Bool
+}
+
 func siteName(site ssa.CallInstruction) string {
 	if v, ok := site.(ssa.Value); ok {
 		return v.Name()
